@@ -3194,7 +3194,27 @@ func (p *Posix) DeleteObject(ctx context.Context, input *s3.DeleteObjectInput) (
 					}, nil
 				}
 
-				srcObjVersion, err := ents[len(ents)-1].Info()
+				// The newest remaining version becomes the current one.
+				// Version ids (ULIDs) sort by creation time, but the null
+				// version has no such id ("null" sorts after every ULID):
+				// it is ordered by modification time, as in the version
+				// listing.
+				newest := ents[len(ents)-1]
+				if newest.Name() == nullVersionId && len(ents) > 1 {
+					newest = ents[len(ents)-2]
+					nullInfo, err := ents[len(ents)-1].Info()
+					if err != nil {
+						return nil, fmt.Errorf("get file info: %w", err)
+					}
+					newestInfo, err := newest.Info()
+					if err != nil {
+						return nil, fmt.Errorf("get file info: %w", err)
+					}
+					if nullInfo.ModTime().After(newestInfo.ModTime()) {
+						newest = ents[len(ents)-1]
+					}
+				}
+				srcObjVersion, err := newest.Info()
 				if err != nil {
 					return nil, fmt.Errorf("get file info: %w", err)
 				}
